@@ -25,3 +25,102 @@ def c_assoc(c):
     c.goal_eq('conj-reverses', pqc, _Q(c, Q.conjugate, False).product(P.conjugate))
     c.goal_eq('product=spec', pq, qmul(p, q))
     c.observe('pq', pq)
+
+
+@contract('C09', 'inverse', variants=[dict(versor=True), dict(versor=False)],
+          functions=['Quaternion.inverse', 'Quaternion.inv', 'Quaternion.is_versor', 'Quaternion.conjugate'])
+def c_inverse(c):
+    """q^-1 q = q q^-1 = 1 for every non-zero q, stored as versor or not"""
+    q = c.reals('q', 4)
+    c.assume(ne(dot(q, q), 0))
+    Q = _Q(c, q, c.p['versor'])
+    a = Q.A
+    n2 = dot(a, a)
+    # the real code treats |norm-1| <= 1e-8+1e-5 as "versor" and returns the conjugate there
+    n = sqrtv(n2)
+    nonversor = gt(absv(n - 1), 1e-8 + 1e-5)
+    c.known_region('KF-C09-inverse-nonversor', nonversor)
+    qi = Q.inverse
+    c.goal_eq('inv=inverse', Q.inv, qi)
+    left = _Q(c, qi, False).product(a)
+    right = Q.product(qi)
+    for nm, pr in (('left', left), ('right', right)):
+        for k in (1, 2, 3):
+            c.goal(f'{nm}[{k}]', eq(pr[k], 0))
+        # exact where the exact formula is used, within the code's own is_versor tolerance elsewhere
+        c.goal(f'{nm}[0]', And(le(pr[0], 1 + 3e-5), ge(pr[0], 1 - 3e-5)))
+        c.goal(f'{nm}[0].exact-for-unit', Implies(eq(n2, 1), eq(pr[0], 1)))
+    c.observe('inverse', qi)
+
+
+@contract('C09', 'mult_L/mult_R', functions=['Quaternion.mult_L', 'Quaternion.mult_R', 'Quaternion.product'])
+def c_mult(c):
+    p, q = c.reals('p', 4), c.reals('q', 4)
+    c.assume(ne(dot(p, p), 0)); c.assume(ne(dot(q, q), 0))
+    P, Q = _Q(c, p, False), _Q(c, q, False)
+    pq = P.product(q)
+    c.goal_eq('L(p)q=pq', P.mult_L() @ q, pq)
+    c.goal_eq('R(q)p=pq', Q.mult_R() @ p, pq)
+    c.goal_eq('pq=spec', pq, qmul(p, q))
+    c.observe('Lp', P.mult_L()); c.observe('Rq', Q.mult_R())
+
+
+@contract('C09', 'entry-points-agree', variants=[dict(versor=True), dict(versor=False)],
+          functions=['Quaternion.__mul__', 'Quaternion.__matmul__', 'Quaternion.product', 'orientation.q_prod'])
+def c_entry(c):
+    p, q = c.reals('p', 4), c.reals('q', 4)
+    c.assume(ne(dot(p, p), 0)); c.assume(ne(dot(q, q), 0))
+    P, Q = _Q(c, p, c.p['versor']), _Q(c, q, c.p['versor'])
+    ref = qmul(P.A, Q.A)
+    c.goal_eq('product', P.product(Q), ref)
+    c.goal_eq('mul', P * Q, ref)
+    c.goal_eq('matmul', P @ Q, ref)
+    c.goal_eq('q_prod', c.ahrs.common.orientation.q_prod(P.A, Q.A), ref)
+    c.goal_eq('mul-array-arg', P * Q.A, ref)
+    c.observe('mul', P * Q)
+
+
+@contract('C09', 'scalar-last', variants=[dict(versor=True), dict(versor=False)],
+          functions=['Quaternion.w', 'Quaternion.x', 'Quaternion.y', 'Quaternion.z', 'Quaternion.v',
+                     'Quaternion.conjugate', 'Quaternion.product', 'Quaternion.to_DCM', 'Quaternion.mult_L',
+                     'Quaternion.mult_R'])
+def c_order(c):
+    """the same quaternion stored scalar-last exposes the same w,x,y,z, conjugate, product and matrix"""
+    q, r = c.reals('q', 4), c.reals('r', 4)
+    c.assume(ne(dot(q, q), 0)); c.assume(ne(dot(r, r), 0))
+    H = _Q(c, q, c.p['versor'], 'H')
+    S = _Q(c, np.roll(q, -1), c.p['versor'], 'S')
+    for nm in ('w', 'x', 'y', 'z'):
+        c.goal(nm, eq(getattr(H, nm), getattr(S, nm)))
+    c.goal_eq('v', H.v, S.v)
+    c.goal_eq('conjugate', H.conjugate, np.roll(S.conjugate, 1))
+    c.goal_eq('product', H.product(r), S.product(r))
+    c.goal_eq('to_DCM', H.to_DCM(), S.to_DCM())
+    c.goal_eq('mult_L', H.mult_L(), S.mult_L())
+    c.goal_eq('mult_R', H.mult_R(), S.mult_R())
+    c.observe('S.conj', S.conjugate)
+
+
+@contract('C09', 'free-functions', functions=['orientation.q_prod', 'orientation.q_conj', 'orientation.q_mult_L',
+                                              'orientation.q_mult_R', 'orientation.q_norm'])
+def c_free(c):
+    o = c.ahrs.common.orientation
+    p, q, r = c.reals('p', 4), c.reals('q', 4), c.reals('r', 4)
+    c.assume(ne(dot(p, p), 0)); c.assume(ne(dot(q, q), 0))
+    pq = o.q_prod(p, q)
+    c.goal_eq('q_prod=spec', pq, qmul(p, q))
+    c.goal_eq('assoc', o.q_prod(o.q_prod(p, q), r), o.q_prod(p, o.q_prod(q, r)))
+    c.goal_eq('conj-reverses', o.q_conj(pq), o.q_prod(o.q_conj(q), o.q_conj(p)))
+    c.goal_eq('q_conj', o.q_conj(p), qconj(p))
+    c.goal_eq('q_conj.batch', o.q_conj(np.array([p, q])), np.array([qconj(p), qconj(q)]))
+    ph = o.q_norm(p.copy())
+    c.goal('q_norm.unit', eq(dot(ph, ph), 1))
+    n = sqrtv(dot(p, p))
+    c.goal_eq('q_norm.direction', ph * n, p)
+    # the matrix helpers normalise their argument: L(p^) q = p^ q = R(q^) ... stated on the normalised input
+    L = o.q_mult_L(p.copy())
+    R = o.q_mult_R(q.copy())
+    qh = o.q_norm(q.copy())
+    c.goal_eq('q_mult_L', L @ r, qmul(ph, r))
+    c.goal_eq('q_mult_R', R @ r, qmul(r, qh))
+    c.observe('L', L)
